@@ -1187,23 +1187,11 @@ func RuleUP1(c *Ctx) {
 		if !ok || cbT.Params().Len() != 1 || cbT.Results().Len() != 1 || !types.Identical(cbT.Params().At(0).Type(), cbT.Results().At(0).Type()) {
 			return
 		}
-		var body *ast.BlockStmt
-		var ftype *ast.FuncType
 		binfo := info
-		switch a := ast.Unparen(cs.Call.Args[1]).(type) {
-		case *ast.FuncLit:
-			body, ftype = a.Body, a.Type
-		default:
-			var g *types.Func
-			switch x := a.(type) {
-			case *ast.Ident:
-				g, _ = info.ObjectOf(x).(*types.Func)
-			case *ast.SelectorExpr:
-				g, _ = info.ObjectOf(x.Sel).(*types.Func)
-			}
-			if gd := c.P.Decl(g); g != nil && gd != nil {
-				body, ftype, binfo = gd.Body, gd.Type, c.P.PkgOfDecl(gd).TypesInfo
-			}
+		bpk := cs.Pk
+		body, ftype, in, okf := c.funcValueOf(cs.Pk, c.CFG(cs.Pk, cs.Body), cs.Call.Args[1])
+		if okf {
+			binfo, bpk = in.TypesInfo, in
 		}
 		n++
 		perFn[cs.Decl]++
@@ -1214,7 +1202,7 @@ func RuleUP1(c *Ctx) {
 			return
 		}
 		param := binfo.ObjectOf(ftype.Params.List[0].Names[0])
-		cf := c.CFG(cs.Pk, body)
+		cf := c.CFG(bpk, body)
 		fromParam := func(e ast.Expr) bool {
 			e = ast.Unparen(cf.Resolve(e))
 			if ta, ok := e.(*ast.TypeAssertExpr); ok {
@@ -1300,14 +1288,23 @@ func RuleMB1(c *Ctx) {
 				return
 			}
 			ast.Inspect(fd.Body, func(n ast.Node) bool {
-				ifs, ok := n.(*ast.IfStmt)
-				if !ok || !endsWithErrorReturn(info, ifs.Body) {
+				ret, ok := n.(*ast.ReturnStmt)
+				if !ok || len(ret.Results) == 0 {
 					return true
 				}
-				body := innermostBody(fd, ifs)
+				last := ret.Results[len(ret.Results)-1]
+				if tv, has := info.Types[last]; !has || tv.IsNil() {
+					return true
+				}
+				if _, isCall := ast.Unparen(last).(*ast.CallExpr); !isCall {
+					return true // `return err`: somebody else's verdict
+				}
+				if t := info.TypeOf(last); t == nil || !isErrorLike(t) {
+					return true
+				}
+				body := innermostBody(fd, ret)
 				cf := c.CFG(pk, body.body)
-				// atoms of the condition and of what dominates the if
-				facts := cf.Decompose(ifs.Cond, true)
+				facts := cf.FactsAt(ret)
 				var slotExpr ast.Expr
 				for _, fa := range facts {
 					be, ok := ast.Unparen(fa.Expr).(*ast.BinaryExpr)
@@ -1328,7 +1325,7 @@ func RuleMB1(c *Ctx) {
 					return true
 				}
 				extra := ""
-				for _, fa := range append(facts, cf.FactsAt(ifs)...) {
+				for _, fa := range facts {
 					if fa.Derived {
 						continue
 					}
@@ -1337,7 +1334,7 @@ func RuleMB1(c *Ctx) {
 					case *ast.BinaryExpr:
 						if x.Op == token.LAND || x.Op == token.LOR {
 							if x.Op == token.LAND && fa.Truth || x.Op == token.LOR && !fa.Truth {
-								continue // decomposed
+								continue // decomposed into its parts, which are in the list
 							}
 							extra = types.ExprString(e)
 							continue
@@ -1363,9 +1360,9 @@ func RuleMB1(c *Ctx) {
 					}
 				}
 				if extra == "" {
-					good = c.P.Pos(ifs.Pos())
+					good = c.P.Pos(ret.Pos())
 				} else if near == "" {
-					near, nearWhy = c.P.Pos(ifs.Pos()), extra
+					near, nearWhy = c.P.Pos(ret.Pos()), extra
 				}
 				return true
 			})
